@@ -63,6 +63,8 @@ pub struct Outcome {
     pub fired: Vec<(String, u64)>,
     pub counts: Vec<(String, u64)>,
     pub trace: Vec<(String, u64)>,
+    /// work ticks by kind (loop heads reached inside the library)
+    pub tick_kinds: Vec<(String, u64)>,
 }
 
 impl Outcome {
@@ -82,6 +84,7 @@ impl Outcome {
             fired: Vec::new(),
             counts: Vec::new(),
             trace: Vec::new(),
+            tick_kinds: Vec::new(),
         }
     }
     pub fn unresolved(why: &str) -> Self {
@@ -220,6 +223,7 @@ where
     let res = catch_unwind(AssertUnwindSafe(f));
     let (counts, fired, trace) = delaunay::verif::fail::end();
     let ticks = delaunay::verif::tick::total();
+    let tick_kinds = own(delaunay::verif::tick::by_kind());
     delaunay::verif::tick::reset(u64::MAX);
     delaunay::verif::knob::set_all(&[]);
     delaunay::verif::uuid::seed(None);
@@ -238,6 +242,7 @@ where
         }
     };
     out.ticks = ticks;
+    out.tick_kinds = tick_kinds;
     out.counts = own(counts);
     out.fired = own(fired);
     out.trace = own(trace);
